@@ -1039,6 +1039,18 @@ where
                     // Read optional payload.
                     let res = match Self::read_message_payload(&msg, &mut stream_reader, payload_buffer_pool.acquire_buffer().await, payload_read_timeout).await {
                         Ok(payload_opt) => Ok((msg.clone(), payload_opt)),
+                        Err(e) if e.is::<PayloadTooLarge>() => {
+                            // Fail the request the oversized reply belongs to, then give the link up: what follows on it
+                            // is payload, not protocol.
+                            warn!(client_id = client_id.as_str(), connection_id = conn_id, service_type = ST::NAME, "{}", e.to_string());
+                            if let Some(correlation_id) = msg.correlation_id()
+                              && let Some(sender) = pending_requests.take_response_sender(correlation_id)
+                            {
+                                let _ = sender.send(Err(anyhow!("{}", e)));
+                            }
+                            error_state.set_error(e);
+                            break;
+                        },
                         Err(e) => Err(anyhow!(e)),
                     };
 
@@ -1115,6 +1127,12 @@ where
   ) -> anyhow::Result<Option<PoolBuffer>> {
     match msg.payload_info() {
       Some(payload_info) => {
+        // A payload longer than the negotiated maximum cannot be taken, and the stream cannot be resynchronised
+        // after it: the caller drops the link.
+        if payload_info.length > pool_buff.as_mut_slice().len() {
+          return Err(PayloadTooLarge(payload_info.length).into());
+        }
+
         let payload = &mut pool_buff.as_mut_slice()[..payload_info.length];
 
         match tokio::time::timeout(payload_read_timeout, Self::read_payload(payload, stream_reader)).await {
@@ -1166,3 +1184,15 @@ where
     Ok(())
   }
 }
+
+/// A response announced a payload longer than the maximum payload size of the connection.
+#[derive(Debug)]
+struct PayloadTooLarge(usize);
+
+impl std::fmt::Display for PayloadTooLarge {
+  fn fmt(&self, f: &mut std::fmt::Formatter<'_>) -> std::fmt::Result {
+    write!(f, "response payload of {} bytes exceeds the maximum payload size", self.0)
+  }
+}
+
+impl std::error::Error for PayloadTooLarge {}
